@@ -24,6 +24,14 @@ pub assume_specification<'a>[<String as From<&'a str>>::from](s: &str) -> (r: St
 pub assume_specification<T, P: FnOnce(&T) -> bool>[Option::<T>::filter](o: Option<T>, p: P) -> (r: Option<T>)
     requires o matches Some(t) ==> p.requires((&t,)),
     ensures match o { None => r is None, Some(t) => (r == Some(t) && p.ensures((&t,), true)) || (r is None && p.ensures((&t,), false)) };
+/// case / blank normalisation of strings (API neighbourhood, not called by the unchanged code): nothing is promised
+pub assume_specification[str::to_ascii_lowercase](s: &str) -> (r: String);
+pub assume_specification[str::to_ascii_uppercase](s: &str) -> (r: String);
+pub assume_specification[str::to_lowercase](s: &str) -> (r: String);
+pub assume_specification[str::to_uppercase](s: &str) -> (r: String);
+pub assume_specification<'a>[str::trim](s: &'a str) -> (r: &'a str);
+pub assume_specification<'a>[str::trim_start](s: &'a str) -> (r: &'a str);
+pub assume_specification<'a>[str::trim_end](s: &'a str) -> (r: &'a str);
 pub mod axioms { use super::*;
     /// derive(Ord, PartialOrd, Eq, PartialEq) on the two-variant `Lint`: a total order consistent with equality (vstd's btree key model)
     pub broadcast axiom fn lint_is_a_btree_key()
